@@ -19,7 +19,9 @@ The query is given as the `Query` of the reference evaluator (`Model/Query.lean`
 the selection) and `vn` (the name of the variable of the i-th filter). `is_selected` of the parser is
 `onAlias` (`build_filter`, `build_order_by`: the name is looked up among the selection's keys only when it is
 not a field of the entity). The meaning of the tree is `Model/SqlSem.lean`; `Lemmas/SqlCompile.lean` proves
-that it is the evaluator's.
+that it is the evaluator's. One level of sub-selections through reference fields is added by
+`Model/SqlGenSub.lean` / `Model/SqlSemSub.lean` / `Lemmas/SqlCompileSub.lean` on top of this file
+(`compileFrom` continues the bind list of an enclosing statement).
 
 This file imports the evaluator's types only (core Lean otherwise) so that the driver can be compiled.
 -/
